@@ -41,8 +41,11 @@ ASSUMPTIONS = [
     "literal name exists; when neither exists (really deleted) both answers are accepted",
     "NUL garbage always follows the path proper (as in psutil issue 717); the suffix rule applies after NUL stripping",
     "zombie: cmdline() must raise ZombieProcess; exe()/cwd() may raise ZombieProcess or return ''; environ() unchecked",
-    "name(): the extension rule is asserted for ASCII comm only; for a non-ASCII comm of 15 bytes both the kernel "
-    "name and the extension are accepted (bytes vs characters)",
+    "name(): the 15-*byte* rule is asserted for every comm, ASCII or not (the kernel cuts bytes; a name cut inside a multi-byte "
+    "character is completed from cmdline()[0] when the basename's bytes start with it)",
+    "the caller's working directory is the directory of the fixture programs for half of the cases; a relative argv[0] is "
+    "never a guess for exe(), whatever it resolves to for the caller",
+    "three extra shard groups run in an interpreter whose filesystem encoding is ASCII (LC_ALL=C, UTF-8 mode and coercion off)",
     "'executable file' = os.path.isfile and os.access(X_OK) evaluated by the oracle on the real file system",
     "exe() caching = the second call returns the same value and performs no access to the simulated procfs",
 ]
